@@ -78,7 +78,7 @@ def _idx(table, v):
 # ----------------------------------------------------------------------------- TLC: the universe of histories
 BASE = dict(TopNames='{"a", "dd"}', DirNames='{"dd"}', ChildNames='{"x"}', SubDirs="TRUE", NContents=1, MinRevs=1,
             MaxRevs=2, MaxEdits=2, MaxParents=2, NMsg=1, NWho=1, NTs=1, NTz=1, MetaChoices=1, TagNames='{"t1"}',
-            Pointless="FALSE", NewRoots="TRUE")
+            Pointless="FALSE", NewRoots="TRUE", SampleEvery=1, PrefillDirs="{}")
 INVARIANTS = ("GenWF", "DropEmptyDirsLaws", "ProjectionIdFree", "LawsHoldOnSpec")
 
 
@@ -96,18 +96,18 @@ GRAPH_T = consts(TopNames='{"a", "bb"}', DirNames="{}", ChildNames="{}", SubDirs
                  TagNames="{}", NewRoots="FALSE")                      # thorough: every one-root graph <= 4 revisions
 SMALL = consts(TopNames='{"a", "bb", "dd"}', DirNames='{"dd"}', ChildNames='{"x"}', NContents=2, MaxRevs=3, MinRevs=2,
                MaxEdits=2, NMsg=2, NWho=2, NTz=2, MetaChoices=2)
-DIRS = consts(TopNames='{"dd", "ee"}', DirNames='{"dd", "ee"}', ChildNames='{"x"}', SubDirs="FALSE", MinRevs=2, MaxEdits=3,
-              TagNames="{}", NewRoots="FALSE")                         # two directories and their children only: directory
-#                                                                        renames and moves between directories are frequent
+DIRS = consts(TopNames='{"a", "dd", "ee"}', DirNames='{"dd", "ee"}', ChildNames='{"x", "yy"}', SubDirs="FALSE", MinRevs=2,
+              MaxRevs=3, MaxEdits=3, TagNames="{}", NewRoots="FALSE")    # two directories with two places each and one
+#                                                 top-level name: moves between, out of and into directories are frequent
 LARGE = consts(TopNames='{"a", "bb", "dd", "ee"}', DirNames='{"dd", "ee"}', ChildNames='{"x", "yy"}', NContents=4,
                MinRevs=2, MaxEdits=3, NMsg=4, NWho=4, NTs=3, NTz=4, MetaChoices=3, TagNames='{"t1", "t2"}', Pointless="TRUE")
 
 _last_state = re.compile(r"STATE_(\d+) ==\s*\n(.*?)(?=^\\\* |\Z|^={4,})", re.M | re.S)
 
 
-def simulate_histories(ctx, constants, num, depth, seed, label):
+def simulate_histories(ctx, constants, num, depth, seed, label, invariants=INVARIANTS):
     """Random walks of HistoryChannelGen; the final state of every finished walk is a history."""
-    res = tlc.run(ctx, "HistoryChannelGen", mode="simulate", cfg_text=vtable.cfg(constants, INVARIANTS), num=num,
+    res = tlc.run(ctx, "HistoryChannelGen", mode="simulate", cfg_text=vtable.cfg(constants, invariants), num=num,
                   depth=depth, seed=seed, simfile=True, workers=1, timeout=1500)
     if res.get("violated"):
         ctx.machinery("simulation of HistoryChannelGen violates %s:\n%s" % (res["violated"], res["output"][-2000:]))
@@ -185,6 +185,63 @@ def universe(ctx, nsmall, nlarge, max_revs):
     return out
 
 
+POOL_INVARIANTS = ("GenWF", "DropEmptyDirsLaws", "SampledLaws")
+
+
+def universe_stratified(ctx, required, npool_large, npool_dirs, per_stratum, quota, max_revs, sample=4):
+    """E1 + E2 with a STRATIFIED sample.  Rare situations (a move out of a populated directory, a merge whose parents
+    arrive in different rounds, ...) hardly occur among a hundred random walks, so: TLC produces a large pool of cheap
+    walks (only the generator's own invariants; the in-spec laws are checked exhaustively on the small universes and on
+    every `sample`-th finished walk of the pools), every history of the pool is classified (features / situations), and the
+    replayed sample takes up to `per_stratum` histories of EVERY class (seeded), then random ones up to `quota`.
+    A class of `required` without a history in the sample is a machinery failure, never a silent gap."""
+    import random
+    q = ctx.quick
+    for name, c in (("trees", TREES if q else TREES_T), ("graph", GRAPH if q else GRAPH_T)):
+        res = tlc.check(ctx, "HistoryChannelGen", cfg_text=vtable.cfg(c, INVARIANTS), label="exhaustive " + name, timeout=3000)
+        full = c["MaxRevs"] * (c["MaxEdits"] + 1) + 2
+        if res.get("depth") != full:
+            ctx.machinery("exhaustive %s: state graph depth %s, complete sessions need %d" % (name, res.get("depth"), full))
+    if not q:                                                  # antecedents of LawsHoldOnSpec (fixed configs: thorough only)
+        tlc.check(ctx, "HistoryChannelGen", cfg_text=vtable.cfg(TREES_T, ("WitnessEmptyDir",)),
+                  expect_violation="WitnessEmptyDir", label="witness WitnessEmptyDir")
+        witness_by_simulation(ctx, dict(GRAPH, MinRevs=3), "WitnessAsymMerge", ctx.seed * 100 + 1)
+    # pools of cheap random walks; the expensive in-spec laws are checked on every `sample`-th finished history of them
+    pool = []
+    for k, (c, num, label) in enumerate((
+            (dict(LARGE, MaxRevs=max_revs, MinRevs=2, NewRoots="TRUE", MaxParents=2 if q else 3), npool_large, "pool large"),
+            (dict(DIRS, MaxRevs=3 if q else 4, PrefillDirs='{"dd"}'), npool_dirs, "pool directories"))):
+        pool += simulate_histories(ctx, dict(c, SampleEvery=sample), num, 45, ctx.seed * 10 + 2 + k, label,
+                                   invariants=POOL_INVARIANTS)
+    seen, uniq = set(), []
+    for h in pool:
+        k = hkey(h)
+        if k not in seen:
+            seen.add(k)
+            uniq.append(h)
+    rng = random.Random(ctx.seed)
+    classes = {}
+    for i, h in enumerate(uniq):
+        for c in features(h):
+            classes.setdefault(c, []).append(i)
+    chosen = set()
+    for c in sorted(classes):
+        chosen |= set(rng.sample(classes[c], min(per_stratum, len(classes[c]))))
+    rest = [i for i in range(len(uniq)) if i not in chosen]
+    rng.shuffle(rest)
+    chosen |= set(rest[:max(0, quota - len(chosen))])
+    out = [uniq[i] for i in sorted(chosen)]
+    have = set()
+    for h in out:
+        have |= features(h)
+    missing = [c for c in required if c not in have]
+    if missing:
+        ctx.machinery("no history of the classes %s among %d generated ones" % (missing, len(uniq)))
+    ctx.cov["pool"] = {"generated": len(uniq), "replayed": len(out),
+                       "classes_in_pool": {c: len(v) for c, v in sorted(classes.items())}}
+    return out
+
+
 # ----------------------------------------------------------------------------- classification of histories
 def features(h):
     """The classes of a history the coverage rule talks about."""
@@ -224,6 +281,73 @@ def features(h):
                 f.add("pointless")
     if h["tags"]:
         f.add("tags")
+    return f | situations(h)
+
+
+def _ancestry(P, r):
+    out, todo = set(), [r]
+    while todo:
+        x = todo.pop()
+        if x not in out:
+            out.add(x)
+            todo.extend(P[x - 1])
+    return out
+
+
+def situations(h):
+    """Rarer classes of situations the sample of replayed histories is stratified by (see universe()):
+      moveout       a revision moves an entry out of a directory that keeps another entry and is otherwise untouched
+      movein        ... into a directory that already held another entry and is otherwise untouched
+      diremptied    a directory loses all its content (deleted or moved away) but stays
+      swap          two objects exchange their paths
+      tipmerge-left / -right   the tip is a merge of parents neither of which descends from the other, and keeps an
+                    entry of its first (last) parent that the other parent does not have in that form -- transferred in
+                    two rounds, one parent is already there when the merge arrives
+      midmerge      the same for a merge below the tip
+    """
+    f = set()
+    n = len(h["P"])
+    for r in range(1, n + 1):
+        ps = h["P"][r - 1]
+        if not ps:
+            continue
+        t = h["T"][r - 1]
+        b = h["T"][ps[0] - 1]
+        bo = {e["o"]: e for e in b}
+        co = {e["o"]: e for e in t}
+
+        def inside(tree, d):
+            return sorted((e["o"], tuple(e["p"]), e["k"], e["c"], e["x"]) for e in tree if tuple(e["p"][:-1]) == d)
+        for o, e in co.items():
+            pe = bo.get(o)
+            if pe is None or pe["p"] == e["p"]:
+                continue
+            src, dst = tuple(pe["p"][:-1]), tuple(e["p"][:-1])
+            if src != dst and src and any(x["o"] == bo_d["o"] for x in t for bo_d in b if tuple(bo_d["p"]) == src and tuple(x["p"]) == src):
+                rest_before = [x for x in inside(b, src) if x[0] != o]
+                if rest_before and rest_before == inside(t, src) and any(x[2] != "directory" for x in rest_before):
+                    f.add("moveout")
+            if src != dst and dst:
+                rest_after = [x for x in inside(t, dst) if x[0] != o]
+                if rest_after and rest_after == inside(b, dst):
+                    f.add("movein")
+            other = next((x for x in t if x["o"] != o and tuple(x["p"]) == tuple(pe["p"]) and x["o"] in bo
+                          and tuple(bo[x["o"]]["p"]) == tuple(e["p"])), None)
+            if other is not None:
+                f.add("swap")
+        for e in t:
+            if e["k"] == "directory" and e["o"] in bo and bo[e["o"]]["k"] == "directory":
+                if inside(b, tuple(bo[e["o"]]["p"])) and not inside(t, tuple(e["p"])):
+                    f.add("diremptied")
+        if len(ps) > 1:
+            p1, p2 = ps[0], ps[-1]
+            if p2 not in _ancestry(h["P"], p1) and p1 not in _ancestry(h["P"], p2):
+                c1, c2, cm = set(carried(h["T"][p1 - 1])), set(carried(h["T"][p2 - 1])), set(carried(t))
+                where = "tipmerge" if r == h["tip"] else "midmerge"
+                if (c1 & cm) - c2:
+                    f.add(where + ("-left" if where == "tipmerge" else ""))
+                if (c2 & cm) - c1 and where == "tipmerge":
+                    f.add("tipmerge-right")
     return f
 
 
